@@ -81,6 +81,8 @@ def make_case(rng, tier):
         t = ("Multiply",) + tuple(ks); fam = "product3+"
     names = sorted(S.variables(t))
     pts = [G.rand_point(rng, names, vals, extra=0.05) for _ in range(2)]
+    if rng.random() < 0.25:
+        pts += G.collision_twins(rng, names, vals)
     absent = rng.choice(["q", "t", "x1"])
     return {"kind": "fwd", "family": fam, "spec": S.to_json(t), "points": [S.point_to_json(p) for p in pts],
             "mode": G.share(rng, t), "absent": absent}
